@@ -2,7 +2,7 @@
    Text formats: sep = ',' (SubRip) or '.' (WebVTT, TTML, SSA); k fraction digits = 3 (ms) or 2 (SSA, cs);
    every reader parses with 3 digits.  frac_div k = 10^(9-k) ns is the format's unit. *)
 From Coq Require Import List ZArith NArith Bool.
-From Astisub Require Import Kit.Base Kit.Str Model.Dur Proofs.DurProofs.
+From Astisub Require Import Kit.Base Kit.Str Kit.Float64 Model.Dur Model.Lin Proofs.DurProofs Proofs.FracFloatProofs.
 Import ListNotations.
 Open Scope Z_scope.
 
@@ -31,6 +31,12 @@ Proof. exact format_canonical. Qed.
 Theorem C16_monotone : forall k t t', (1 <= k <= 3)%nat -> 0 <= t <= t' ->
   t - t mod frac_div k <= t' - t' mod frac_div k.
 Proof. exact format_monotone. Qed.
+
+(* the fraction digits are computed by the code as floor(float64(n)/1e6/10^(3-k)) in binary64; the model
+   above uses the integer quotient n / 10^(9-k): they are equal for every sub-second remainder *)
+Theorem C16_float_fraction : forall (k : nat) (n : Z), (k = 2 \/ k = 3)%nat -> (0 <= n < 1000000000)%Z ->
+  frac_float k n = (n / 10 ^ (9 - Z.of_nat k))%Z.
+Proof. exact frac_float_correct. Qed.
 
 (* instances *)
 Example C16_seps : sep_ok comma /\ sep_ok dot. Proof. split; split; (reflexivity || discriminate). Qed.
@@ -61,3 +67,4 @@ Print Assumptions C16_latest_representable.
 Print Assumptions C16_canonical.
 Print Assumptions C16_monotone.
 Print Assumptions C16_stl.
+Print Assumptions C16_float_fraction.
